@@ -150,8 +150,22 @@ def run(chk, model_ok=True):
             r = walk_minimal(dg)
             if r:
                 fail(ln, out, "v3 message is not a minimally encoded TLV tree: " + r)
+            # independent reading of the header fields (TLV walk only: the PDU may hold arbitrary name octets)
+            try:
+                tag, content, end, _ = ber.parse_tlv(dg, 0)
+                top = ber.parse_all(content)
+                hdr = ber.parse_all(top[1][1])
+                usm = ber.parse_all(ber.parse_all(top[2][1])[0][1])
+                got_f = (ber.int_value(hdr[0][1])[0], ber.int_value(usm[1][1])[0], ber.int_value(usm[2][1])[0])
+                want_f = (int(parts[2]), int(parts[7]), int(parts[8]))
+                if got_f != want_f:
+                    fail(ln, out, f"msgID / engine boots / engine time read back as {got_f}, asked for {want_f}")
+                elif (usm[0][1], usm[3][1]) != tuple(b"" if x == "-" else bytes.fromhex(x) for x in (parts[6], parts[9])):
+                    fail(ln, out, "engine id / user name differ from what was asked")
+            except (ber.BerError, IndexError) as e:
+                fail(ln, out, f"independent TLV walk rejects the v3 message: {e}")
             back.append(f"msg v3 {f[2]}")
-            back_expect.append(None)
+            back_expect.append("ok " + " ".join(parts[2:]))
     st2 = streams.Streams(chk, model_ok)
     st2.add("decode-back", back)
     st2.run()
